@@ -32,7 +32,9 @@ BIG = 400  # glyphs; larger fonts get sampled glyph sets / fewer transformations
 
 # ---------------------------------------------------------------------------
 # plans
-def permutations_for(order, rng, tier, big):
+def permutations_for(order, rng, tier, big, full=True):
+    """`full`: every kind (model fonts, thorough tier); otherwise the quick tier keeps the random permutation
+    and one seeded choice of the structured ones (the corpus holds hundreds of near-identical fonts)."""
     head, rest = order[:1], order[1:]
     if len(rest) < 2:
         return []
@@ -53,10 +55,12 @@ def permutations_for(order, rng, tier, big):
             out.append(("random%d" % (t + 2), head + sh))
     if big and tier == "quick":
         out = [out[2]]
+    elif tier == "quick" and not full:
+        out = [out[2], out[rng.choice([0, 1, 3])]]
     return [(k, o) for k, o in out if o != order]
 
 
-def upem_targets(u, rng, tier, big):
+def upem_targets(u, rng, tier, big, full=True):
     t = []
     t.append(1000 if u != 1000 else 2048)
     t.append(u * 2)
@@ -73,7 +77,9 @@ def upem_targets(u, rng, tier, big):
             seen.add(x)
             out.append(x)
     if big and tier == "quick":
-        out = out[:2]
+        out = [out[rng.randrange(len(out))]]
+    elif tier == "quick" and not full:
+        out = [out[i] for i in sorted(rng.sample(range(len(out)), min(2, len(out))))]
     return out
 
 
@@ -506,6 +512,7 @@ def font_job(args):
 
     out = {"label": label, "traces": [], "skips": [], "stats": [], "errors": [], "cpu": {}}
     rng = random.Random("%d|%s|%d" % (seed, label, fontNumber))
+    full = label.startswith("model:") or tier != "quick"
     tm = _Timer(out["cpu"])
     try:
         order, twin = _prep(data, fontNumber)
@@ -533,7 +540,7 @@ def font_job(args):
             out["errors"].append("observe-before reorder %s: %s" % (label, traceback.format_exc()[-600:]))
             B = None
         tm("reorder-observe-before")
-        for kind, want in (permutations_for(order, rng, tier, big) if B else []):
+        for kind, want in (permutations_for(order, rng, tier, big, full) if B else []):
             meta = dict(meta0, op="reorder", perm=kind)
             try:
                 f = _open(data, fontNumber)
@@ -545,14 +552,16 @@ def font_job(args):
                     out["skips"].append("reorderGlyphs refused: %s" % str(e)[:60])
                     continue
                 except Exception as e:
-                    out["skips"].append("reorderGlyphs/save raised %s" % type(e).__name__)
                     out["stats"].append({"raised": "%s reorder %s: %s: %s" % (label, kind, type(e).__name__, str(e)[:100])})
+                    out["traces"].append(({"k": "raised", "op": "reorder", "exc": type(e).__name__, "ub": 1, "want": 1,
+                                           "meta": dict(meta, error=str(e)[:200])}, ("reorder", label, kind)))
                     continue
                 A = _observe_reorder(after, want, plan)
                 tm("reorder-observe-after")
                 t = build_reorder_trace(B, A, want, meta)
                 t["meta"]["moved"] = sum(1 for a, b in zip(order, want) if a != b)
-                t["meta"]["want_order"] = list(want) if len(want) <= 60 else None
+                if len(want) <= 60:
+                    t["meta"]["want_order"] = list(want)
                 out["traces"].append((t, ("reorder", label, kind)))
                 t["_desc"] = {c: describe_reorder(B, A, [c, a]) for c, a in _prejudge_reorder(t)}
                 tm("reorder-trace")
@@ -565,7 +574,7 @@ def font_job(args):
             out["errors"].append("observe-before scale %s: %s" % (label, traceback.format_exc()[-600:]))
             B = None
         tm("scale-observe-before")
-        for target in (upem_targets(upem, rng, tier, big) if B else []):
+        for target in (upem_targets(upem, rng, tier, big, full) if B else []):
             meta = dict(meta0, op="scale", upem=upem, target=target)
             try:
                 f = _open(data, fontNumber)
@@ -577,8 +586,9 @@ def font_job(args):
                     out["skips"].append("scale_upem refused: %s" % str(e)[:60])
                     continue
                 except Exception as e:
-                    out["skips"].append("scale_upem/save raised %s" % type(e).__name__)
                     out["stats"].append({"raised": "%s scale %d->%d: %s: %s" % (label, upem, target, type(e).__name__, str(e)[:100])})
+                    out["traces"].append(({"k": "raised", "op": "scale", "exc": type(e).__name__, "ub": upem, "want": target,
+                                           "meta": dict(meta, error=str(e)[:200])}, ("scale", label, target)))
                     continue
                 A = _observe_scale(after, order, plan)
                 tm("scale-observe-after")
@@ -624,7 +634,7 @@ def _prejudge_scale(t, num, den):
             out.append(("nothingelse", k))
     seen = set()
     for key, vb, va, h in t["items"]:
-        if key not in seen and abs(Fraction(va) - Fraction(vb) * num / den) * 2 > h:
+        if key not in seen and 2 * abs(va * den - vb * num) > h * den:
             seen.add(key)
             out.append(("scaled", key))
     return out[:12]
@@ -719,31 +729,64 @@ def scale_family_job(args):
     return out
 
 
+def _any_job(a):
+    kind, j = a
+    return scale_family_job(j) if kind == "family" else font_job(j)
+
+
 def _strip(t):
     return {k: v for k, v in t.items() if not k.startswith("_") and k != "detail"}
 
 
-def run_mc(chk):
-    r = chk.tlc("MC_Reorder", cfg="MC_Reorder" if chk.tier == "quick" else "MC_Reorder_thorough", label="MC_Reorder", timeout=1500)
+def run_gen(chk, workers=8):
+    """The MC_Reorder family as JSON (input of (R))."""
+    rg = chk.tlc("MC_Reorder", cfg="MC_Reorder_gen", label="MC_Reorder_gen", timeout=600, workers=workers)
+    specs = [json.loads(p[0]) for p in rg.prints.get("GEN", [])]
+    if len(specs) < 500:
+        raise MachineryError("MC_Reorder_gen emitted %d fonts" % len(specs))
+    return specs
+
+
+def run_mc(chk, workers=16):
+    """(M): exhaustive runs of the two specifications (and the sensitivity run of Reorder's predicates)."""
+    r = chk.tlc("MC_Reorder", cfg="MC_Reorder" if chk.tier == "quick" else "MC_Reorder_thorough", label="MC_Reorder", timeout=1500, workers=workers)
     chk.log("MC_Reorder: %d distinct states, %d transitions, depth %d (%.0fs)" % (r.distinct, r.generated, r.depth, r.wall))
-    rn = chk.tlc("MC_Reorder", cfg="MC_Reorder_neg", label="MC_Reorder_neg", timeout=600)
+    rn = chk.tlc("MC_Reorder", cfg="MC_Reorder_neg", label="MC_Reorder_neg", timeout=600, workers=workers)
     caught = sorted({p[0] for p in rn.prints.get("NEG", [])})
     want = ["base-parallel", "component-gid", "coverage-unsorted", "hmtx", "lig-parallel", "pairset-unsorted", "single-parallel", "var-row"]
     if caught != want:
         raise MachineryError("MC_Reorder_neg: wrong variants reported %s, expected %s (NameView/WellFormed vacuous?)" % (caught, want))
     chk.notes["spec_mutants_distinguished"] = caught
-    rs = chk.tlc("MC_ScaleUpem", label="MC_ScaleUpem", timeout=900)
+    rs = chk.tlc("MC_ScaleUpem", label="MC_ScaleUpem", timeout=900, workers=workers)
     wit = {(p[0], p[1], p[2]) for p in rs.prints.get("WIT", [])}
     need = {("abs-half-attained", 1, 2), ("rel-exceeds-half", 1, 2), ("rel-exceeds-half", 3, 2), ("rel-exceeds-half", 125, 256), ("rel-exceeds-one", 125, 256)}
     if not need <= wit:
         raise MachineryError("MC_ScaleUpem: witnesses missing %s" % sorted(need - wit))
     chk.notes["scale_bound_witnesses"] = sorted("%s k=%d/%d" % w for w in wit)
-    chk.log("MC_ScaleUpem: %d states; witnesses %d" % (rs.distinct, len(wit)))
-    rg = chk.tlc("MC_Reorder", cfg="MC_Reorder_gen", label="MC_Reorder_gen", timeout=600)
-    specs = [json.loads(p[0]) for p in rg.prints.get("GEN", [])]
-    if len(specs) < 500:
-        raise MachineryError("MC_Reorder_gen emitted %d fonts" % len(specs))
-    return specs
+    chk.log("MC_ScaleUpem: %d states (%.0fs); witnesses %d" % (rs.distinct, rs.wall, len(wit)))
+
+
+class _Background:
+    """Runs (M) while the worker pool drives the real code; the main thread starts no TLC run until join()."""
+
+    def __init__(self, fn, *a, **kw):
+        import threading
+
+        self.exc = None
+
+        def body():
+            try:
+                fn(*a, **kw)
+            except BaseException as e:  # re-raised in the main thread
+                self.exc = e
+
+        self.th = threading.Thread(target=body, daemon=True)
+        self.th.start()
+
+    def join(self):
+        self.th.join()
+        if self.exc is not None:
+            raise self.exc
 
 
 def run(chk):
@@ -752,7 +795,7 @@ def run(chk):
                 "non-trivial = reorder that moves >= 2 glyphs of a font with a gid-indexed layout/composite/variation structure, or a "
                 "scale with factor != 1 yielding >= 20 distinct design-unit numbers")
     t0 = time.time()
-    specs = run_mc(chk)
+    specs = run_gen(chk)
     jobs = []
     for label, data, idx in sources(chk):
         jobs.append((label, data, idx, chk.seed, chk.tier, ("reorder", "scale")))
@@ -761,10 +804,20 @@ def run(chk):
     # biggest first so that the pool is balanced
     jobs.sort(key=lambda j: -len(j[1]))
     chk.log("%d fonts (%d corpus, rest model); driving the real reorderGlyphs / scale_upem" % (len(jobs), len([j for j in jobs if not j[0].startswith("model:")])))
-    results = common.pmap(font_job, jobs, procs=14)
-    fam = common.pmap(scale_family_job, [(l, d, t, chk.seed, chk.tier) for l, d, t in scale_family_sources(chk)], procs=8)
-    results += fam
-    chk.log("driven in %.0fs" % (time.time() - t0))
+    fam_jobs = [(l, d, t, chk.seed, chk.tier) for l, d, t in scale_family_sources(chk)]
+    mc = _Background(run_mc, chk, workers=4)       # (M) shares the machine with the worker pool
+    t1 = time.time()
+    results = common.pmap(_any_job, [("family", j) for j in fam_jobs] + [("font", j) for j in jobs], procs=13)
+    chk.log("driven in %.0fs" % (time.time() - t1))
+    cpu = {}
+    for r in results:
+        for k, v in r.get("cpu", {}).items():
+            cpu[k] = cpu.get(k, 0.0) + v
+    chk.notes["drive_cpu_seconds_by_phase"] = {k: round(v, 1) for k, v in sorted(cpu.items(), key=lambda kv: -kv[1])}
+    chk.notes["slowest_jobs"] = [[r["label"], round(sum(r.get("cpu", {}).values()), 1)]
+                                 for r in sorted(results, key=lambda r: -sum(r.get("cpu", {}).values()))[:5]]
+    mc.join()
+    chk.log("(M) finished")
     judge_results(chk, results)
     chk.exhaustive = False
     chk.assumptions += [
@@ -801,8 +854,10 @@ def judge_results(chk, results):
     chk.notes["design_unit_numbers_compared"] = numbers
     chk.count(len(traces))
     nre = sum(1 for k in keys if k[0] == "reorder")
-    chk.notes["cases"] = {"reorder": nre, "scale": len(keys) - nre}
+    chk.notes["cases"] = {"reorder": nre, "scale": len(keys) - nre, "of which raised": sum(1 for t in traces if t["k"] == "raised")}
     for t, key in zip(traces, keys):
+        if t["k"] == "raised":
+            continue
         if t["k"] == "reorder":
             structured = len(t["tb"]) > 8 or any("glyf" in f or "gvar" in f or "HVAR" in f for f in t["nf"])
             if t["meta"].get("moved", 0) >= 2 and structured:
@@ -813,11 +868,13 @@ def judge_results(chk, results):
         chk.sample({"meta": t["meta"], "k": t["k"], "fields": t.get("nf"), "tables": [x[0] for x in t.get("tb", t.get("tabs", []))][:30],
                     "numbers": len(t.get("items", []))})
     chk.log("judging %d traces (%d reorder, %d scale) with TLC" % (len(traces), nre, len(traces) - nre))
-    index = {id(t): i for i, t in enumerate(traces)}
-    rej = chk.judge("Trace_C17", traces, chunk=400 if chk.tier == "quick" else 250, multi=True, timeout=1800)
+    lean = [{k: v for k, v in t.items() if k != "meta"} for t in traces]      # TLC does not need the labels
+    index = {id(t): i for i, t in enumerate(lean)}
+    rej = chk.judge("Trace_C17", lean, chunk=400 if chk.tier == "quick" else 250, multi=True, timeout=1800)
     nskip = 0
-    for t, clauses in rej:
-        i = index[id(t)]
+    for lt, clauses in rej:
+        i = index[id(lt)]
+        t = traces[i]
         for clause in clauses:
             c0 = clause[0] if clause else "?"
             if c0.startswith("skip:"):
@@ -826,13 +883,13 @@ def judge_results(chk, results):
                 nskip += 1
                 continue
             arg = clause[1] if len(clause) > 1 else ""
-            key = "%s:%s:%s" % (t["k"], c0, arg)
+            key = "%s:%s:%s" % (t.get("op", t["k"]), c0, arg)
             d = descs[i].get(c0) or descs[i].get("%s:%s" % (c0, arg)) or ""
             what = "%s %s: clause %s %s -- %s" % (t["meta"].get("font"), {k: v for k, v in t["meta"].items() if k in ("op", "perm", "upem", "target")},
                                                 c0, arg, d)
             chk.reject(key, what, {"font": t["meta"].get("font"), "meta": t["meta"], "clause": clause, "detail": d})
     # traces whose only verdicts are skips were not validated
-    only_skip = sum(1 for t, cl in rej if all((c[0] if c else "").startswith("skip:") for c in cl))
+    only_skip = sum(1 for _t, cl in rej if all((c[0] if c else "").startswith("skip:") for c in cl))
     chk.traces_validated -= 0
     chk.notes["out_of_domain_cases"] = only_skip
 
@@ -840,7 +897,7 @@ def judge_results(chk, results):
 def replay(chk, rep):
     """Re-run every transformation of the font named in the replay file against the current tree."""
     label = rep["replay"]["font"]
-    specs = run_mc(chk) if label.startswith("model:family") else []
+    specs = run_gen(chk) if label.startswith("model:family") else []
     jobs = []
     for l, data, idx in sources(chk):
         if l == label:
